@@ -150,6 +150,42 @@ func c19Handed(ctx *Ctx, i int, rng *rand.Rand) {
 			}
 		}
 	}
+	// hosts move: they register again from another address; whoever asks next, for any kind or for
+	// theirs, is handed the address of the latest registration
+	moved := 0
+	for k, nme := range names {
+		if strings.HasPrefix(roles[nme], "host ") && moved < 3 {
+			kind := strings.TrimPrefix(roles[nme], "host ")
+			uri := fmt.Sprintf("enode://%s@10.9.%d.%d:%d", nodeIDOf(nme), k, k+1, 31000+k)
+			addrOf[nodeIDOf(nme)] = fmt.Sprintf("10.9.%d.%d:%d", k, k+1, 31000+k)
+			if _, err := w.connect(nme, true, kind, "", uri); err != nil {
+				fatal("re-register %s: %v", nme, err)
+			}
+			roles[nme] += ", moved"
+			moved++
+		}
+	}
+	if moved > 0 {
+		for k, kind := range []string{"", "geth", "parity", ""} {
+			cl := fmt.Sprintf("d%d", k+1)
+			if _, err := w.connect(cl, false, []string{"geth", "parity"}[k%2], "", ""); err != nil {
+				fatal("connect client: %v", err)
+			}
+			if r, err := w.peer(cl, 6, kind); err == nil && r != nil {
+				for _, n := range r.Peers {
+					handed++
+					check(fmt.Sprintf("%s store, peers handed to a client asking for kind %q right after hosts moved", driverNames[drv], kind), n)
+				}
+			}
+		}
+		for _, kind := range []string{"", "geth", "parity"} {
+			if ans, err := w.st.ActiveHosts(kind, 0); err == nil {
+				for _, n := range ans {
+					check(fmt.Sprintf("%s store, hosts of kind %q after hosts moved", driverNames[drv], kind), n)
+				}
+			}
+		}
+	}
 	if len(mon) > 4 {
 		mon = mon[:4]
 	}
